@@ -168,7 +168,7 @@ PartsAreParts == Done =>
 RoundTrip == Done => LET r == Decompose(Render(banner)) IN
     /\ r.major = banner.major /\ r.minor = banner.minor /\ r.software = banner.software /\ r.comments = banner.comments
 KnownProducts == Done =>
-    /\ (StartsWith(banner.software, P_OPENSSH) /\ IsDigit(banner.software[Len(P_OPENSSH) + 1]) /\ VerLen(SubSeq(banner.software, Len(P_OPENSSH) + 1, Len(banner.software))) >= 2)
+    /\ (StartsWith(banner.software, P_OPENSSH) /\ IsDigit(banner.software[Len(P_OPENSSH) + 1]) /\ Len(VersionOf(SubSeq(banner.software, Len(P_OPENSSH) + 1, Len(banner.software)))) >= 2)     \* digits and dots, ending in a digit
           => ProductOf(banner.software).product = "OpenSSH"
 Emit == Done => PrintT(ToJson([wire |-> wire, header |-> header, banner |-> banner, rendered |-> Render(banner),
                               product |-> ProductOf(banner.software)]))
